@@ -95,6 +95,7 @@ type enc struct {
 	entryAt         int
 	lastModel       map[string]string
 	usedSpecs       map[string]bool
+	specStates      map[string]map[string]hstate // heap-dependent spec functions: name -> state suffix -> state
 	lexicalCallee   bool
 	fnConsts        []string
 	dropAssert      map[int]bool
